@@ -3,7 +3,7 @@ import numpy as np
 from vlib import caseio, gen
 
 ID = "C02"
-COQ_TARGETS = ["C02_Extract.vo", "C02_Proofs.vo", "C02_Transport.vo"]
+COQ_TARGETS = ["C02_Extract.vo", "C02_Proofs.vo", "C02_Transport.vo", "C02_TransportEntry.vo"]
 EXTRACTED = "C02_model"
 DRIVER = "drv_C02.ml"
 HARNESS = "h_C02.cpp"
@@ -11,30 +11,67 @@ VARIANTS = {"quick": ["O1"], "thorough": ["O1", "asan"]}
 AXIOMS_ALLOWED = []          # MathComp only: closed under the global context
 REQUIRED_THEOREMS = ["C02_means_exo", "C02_mean", "C02_mean_noexo", "C02_cov", "C02_cov_psd", "C02_cov_sym",
                      "C02_componentwise", "C02_cov_independent", "C02_mean_independent", "C02_no_exo_equals_zero_exo",
-                     "C02_frame_weights", "C02_frame_covs_beyond", "C02_propagate_branches", "C02_skipped_identity"]
-RULE = ("cases drawn from one seeded stream: n in 1..6, components 1..4, F random / singular / identity / zero / nilpotent / "
-        "badly scaled, Q and P_i symmetric PSD of rank 0..n (singular ones included), with and without an exogenous model "
-        "u = B x + c, output object pre-filled with unrelated means/covariances/weights; 20% of the predict cases and all "
-        "propagate cases carry skip flags (prediction, state, exogenous) so that every branch of LinearStateModel::propagate and "
-        "both early returns are exercised; non-trivial = components >= 2 or exogenous model or singular P/Q or any flag; "
-        "distinct by (kind, n, comps, exo, F kind, rank Q, min rank P, flags)")
+                     "C02_frame_weights", "C02_frame_covs_beyond", "C02_propagate_branches", "C02_skipped_identity",
+                     "C02_layout_kept", "C02_layout_of_input", "C02_layout_flags", "C02_layout_consistent", "C02_whole_object",
+                     "C02_spec_is_model", "C02_seq_stepwise", "C02_seq_no_hidden_memory", "C02_call_time_varying_cov",
+                     "C02_call_time_varying_means", "C02_call_skipped",
+                     "C02_executed_model_is_theorem_model", "C02_executed_skipped_ignores_output_object",
+                     "C02_executed_skipped_is_identity", "C02_executed_propagate_is_theorem_propagate",
+                     "C02_executed_spec_is_theorem_spec", "C02_executed_sequence_is_theorem_sequence",
+                     "C02_executed_step_is_theorem_step"]
+RULE = ("cases drawn from one seeded stream: total dimension n in 1..6 split into linear / circular (Euler angles, use_quaternion = false) / "
+        "noise rows (55% of the beliefs have circular rows, 15% noise rows), components 1..4; F random / singular / identity / zero / nilpotent / "
+        "badly scaled / diagonal / near-identity / near-diagonal / orthogonal / permutation; Q and P_i symmetric PSD of rank 0..n (singular ones "
+        "included), diagonal, near-diagonal; with and without an exogenous model u = B x + c. Magnitudes: physical units x -> L D x (L over 9 "
+        "orders, D diagonal over 8 orders: F -> D F D^-1, P -> L^2 D P D, Q -> L^2 D Q D, m -> L D m) and independent magnitudes of F, Q "
+        "(down to 1e-12 of P), P_i (per component) and the means; tolerances are componentwise forward-error bounds c*u*(|F||X|+|B||X|+|c|) and "
+        "c*u*(a a^T + q q^T) >= c*u*(|F||P||F|^T+|Q|) (a = |F| sqrt(diag P), q = sqrt(diag Q)), which carry the units. Output object: same layout / other linear-circular split of the same total / "
+        "quaternion-flagged / with or without noise rows (always unrelated means, covariances, weights); a skipped call also gets "
+        "default-constructed, other component count, larger, smaller and quaternion objects. 20% of the predict cases and all propagate cases "
+        "carry skip flags so that every branch of LinearStateModel::propagate and both early returns are exercised; sequences drive ONE "
+        "object through 2-4 calls (matrices set / time-varying / exogenous model attached / object move-assigned from a used donor of "
+        "possibly another dimension / move-constructed, flags and layouts per call). 30% of the cases run with callback re-entrancy: an "
+        "independent twin KFPrediction with an exogenous input predicts inside every callback of the subject's models. non-trivial = "
+        "components >= 2 or exogenous model or singular P/Q or any flag or circular/noise rows or a foreign output object; distinct by "
+        "(kind, n, comps, exo, F kind, rank Q, min rank P, flags, circular>0, noise>0, output-object class)")
 TRUSTED_BASE = ["Coq 8.16.1 kernel (coqc); no axioms (Print Assumptions: closed under the global context)",
                 "MathComp 1.15 matrix theory",
                 "extraction (ExtrOcamlBasic only) and ocaml/float_ops.ml, ocaml/drv_C02.ml, ocaml/caseio.ml",
-                "ListOps list instance of MatOps (structural operations, unproved)",
-                "cpp/h_C02.cpp harness (its AffineExo exogenous model and flag set-up), comparison tolerance 1e-12 * magnitude",
+                "ListOps list instance of MatOps: every extracted entry point (c02_run, c02_propagate, c02_spec, c02_seq) is proved to compute, on "
+                "well-formed inputs over any realFieldType, a representation of the MathComp instance the theorems are about "
+                "(ListOpsCorrect.v, C02_Transport.v, C02_TransportEntry.v; theorems C02_executed_*); what remains between executed model and theorem model is IEEE rounding",
+                "cpp/h_C02.cpp harness (its AffineExo exogenous model, flag set-up, layouts built with the GaussianMixture constructor and augmentWithNoise); "
+                "comparison tolerances: componentwise bounds 8(n+3)u(|F||X|+|B||X|+|c|) for means, 8(2n+3)u(a a^T + q q^T), a = |F| sqrt(diag P), q = sqrt(diag Q), for covariances, u = 2^-53",
                 "correspondence is sampled: agreement is established on the generated cases only",
-                "IEEE rounding is not modelled (theorems over an exact real field)"]
-ASSUMPTIONS = ["the output object has the shape of the input (components, dim); other shapes are C14's subject",
+                "IEEE rounding is not modelled (theorems over an exact real field)",
+                "dim / dim_covariance of a mixture are functions of its descriptors (components, dim_linear, dim_circular, use_quaternion, dim_noise): C11"]
+ASSUMPTIONS = ["a prediction that is not skipped is handed an output object with the component count, dim and dim_covariance of the belief "
+               "(neither GaussianPrediction::predict nor KFPrediction::predictStep sizes its output: mean and covariances are written through "
+               "fixed-size views, so another shape mixes incompatible sizes - C14's subject; cases of that class are not generated for "
+               "non-skipped calls); its linear/circular split, quaternion flag, noise size, weights and content are arbitrary",
+               "beliefs have Euler-angle circular rows only (use_quaternion = false): with quaternions dim != dim_covariance and no square F fits both",
                "the exogenous model is a function of the matrix of current means only (no hidden state)"]
 
-COUNTS = {"quick": (260, 60), "thorough": (17000, 3000)}
-SEQ_COUNTS = {"quick": 150, "thorough": 4000}
-HOWS = ["same", "set", "time", "moveassign", "movector", "movector+set"]
+# (predict, propagate, sequence)
+COUNTS = {"quick": (7400, 1400, 3200), "thorough": (17000, 3000, 4000)}
+SEARCH = (2000, 300, 700)
+HOWS = ["same", "set", "time", "moveassign", "movector", "movector+set", "attach"]
+U = 2.0 ** -53
+TINY = 1e-290
 
 
+def p10(rng, lo, hi):
+    return 10.0 ** rng.uniform(lo, hi)
+
+
+def sym(a):
+    return (a + a.T) / 2
+
+
+# ---------------------------------------------------------------------------------------------- numeric generators
 def transition(rng, n):
-    kind = rng.choice(["random", "random", "random", "singular", "identity", "zero", "nilpotent", "scaled"])
+    kind = rng.choice(["random", "random", "random", "singular", "identity", "zero", "nilpotent", "scaled",
+                       "diagonal", "near-identity", "near-diagonal", "orthogonal", "permutation"])
     if kind == "random":
         F = gen.matrix(rng, n, n)
     elif kind == "singular":
@@ -46,14 +83,156 @@ def transition(rng, n):
         F = np.zeros((n, n))
     elif kind == "nilpotent":
         F = np.triu(gen.matrix(rng, n, n), 1)
-    else:
+    elif kind == "scaled":
         F = gen.matrix(rng, n, n) * np.array([10.0 ** rng.randint(-3, 3) for _ in range(n)])
+    elif kind == "diagonal":
+        F = np.diag(gen.matrix(rng, n, 1).ravel())
+    elif kind == "near-identity":          # identity up to a perturbation between 1e-14 and 1e-3
+        F = np.eye(n) + p10(rng, -14, -3) * gen.matrix(rng, n, n)
+    elif kind == "near-diagonal":          # off-diagonal entries between 1e-14 and 1e-5 of the diagonal ones
+        F = np.diag(gen.matrix(rng, n, 1).ravel() + 2.0) + p10(rng, -14, -5) * gen.matrix(rng, n, n)
+    elif kind == "orthogonal":
+        F = gen.orthogonal(rng, n)
+    else:
+        F = np.eye(n)[[*rng.sample(range(n), n)], :]
     return F, kind
 
 
 def psd_any(rng, n):
+    """Symmetric PSD (a floating Gram product: PSD up to (n+2)u*sqrt(P_ii P_jj) componentwise); returns (P, rank)."""
+    kind = rng.choice(["psd", "psd", "psd", "psd", "diagonal", "near-diagonal"])
+    if kind == "diagonal":
+        d = np.array([p10(rng, -3, 2) if rng.random() < 0.8 else 0.0 for _ in range(n)])
+        return np.diag(d), int(np.count_nonzero(d))
+    if kind == "near-diagonal":
+        d = np.array([p10(rng, -2, 2) for _ in range(n)])
+        return sym(np.diag(d) + p10(rng, -14, -5) * gen.psd(rng, n, n)), n
     r = rng.choice([n, n, n, max(0, n - 1), rng.randint(0, n)])
     return gen.psd(rng, n, r), r
+
+
+def units(rng, n):
+    """Unit of the state: x -> L * D x (homogeneous factor, coordinate-wise factors)."""
+    L = p10(rng, -5, 4) if rng.random() < 0.4 else 1.0
+    D = np.array([p10(rng, -4, 4) for _ in range(n)]) if rng.random() < 0.4 else np.ones(n)
+    return L, D
+
+
+def problem(rng, n, k, have_exo, L, D, keep=None):
+    """The numeric data of one call in the units (L, D): F, Q, [B, c], means (n x k), covs [k of n x n].
+    keep = (F, Q, B, c, fkind, rq): the live model still holds these."""
+    if keep is None:
+        F, fkind = transition(rng, n)
+        Q, rq = psd_any(rng, n)
+        if rng.random() < 0.25:
+            F = F * p10(rng, -3, 3)
+        if rng.random() < 0.4:                          # process noise from dominant to negligible relative to P
+            Q = Q * p10(rng, -12, 6)
+        F = D[:, None] * F / D[None, :]
+        Q = sym((L * L) * (D[:, None] * Q * D[None, :]))
+        B = cc = None
+        if have_exo:
+            B = gen.matrix(rng, n, n) * (p10(rng, -4, 3) if rng.random() < 0.3 else 1.0)
+            cc = gen.matrix(rng, n, 1, 4.0) * (p10(rng, -6, 4) if rng.random() < 0.3 else 1.0)
+            if rng.random() < 0.1:
+                B = np.zeros((n, n))
+            if rng.random() < 0.1:
+                cc = np.zeros((n, 1))
+            B = D[:, None] * B / D[None, :]
+            cc = L * D[:, None] * cc
+    else:
+        F, Q, B, cc, fkind, rq = keep
+    means = gen.matrix(rng, n, k, 3.0)
+    if rng.random() < 0.3:
+        means = means * np.array([p10(rng, -6, 6) for _ in range(k)])[None, :]
+    if rng.random() < 0.05:
+        means[:, rng.randrange(k)] = 0.0
+    means = L * D[:, None] * means
+    covs, rmin = [], n
+    sP = p10(rng, -8, 8) if rng.random() < 0.3 else 1.0
+    for i in range(k):
+        P, r = psd_any(rng, n)
+        rmin = min(rmin, r)
+        if rng.random() < 0.2:
+            P = P * p10(rng, -6, 6)                     # per component
+        covs.append(sym((L * L * sP) * (D[:, None] * P * D[None, :])))
+    return dict(F=F, Q=Q, B=B, c=cc, means=means, covs=covs, fkind=fkind, rq=rq, rpmin=rmin)
+
+
+# ---------------------------------------------------------------------------------------------- layouts
+def split(rng, n):
+    """(linear, circular, noise) rows with linear + circular + noise = n."""
+    dn = rng.randint(1, n - 1) if n >= 2 and rng.random() < 0.15 else 0
+    m = n - dn
+    r = rng.random()
+    dc = 0 if r < 0.45 else (m if r < 0.6 else rng.randint(1, m))
+    return m - dc, dc, dn
+
+
+def dims(ol, oc, oq, on):
+    return ol + oc * (4 if oq else 1) + on, ol + oc * (3 if oq else 1) + on
+
+
+def output_object(rng, k, n, prev_lay, skipped):
+    """Descriptors of the output object handed to a call on a belief of k components, dimension n.
+    Returns (class, default?, (ok, ol, oc, oq, on))."""
+    kinds = ["same", "same", "split", "split", "quatflag"]
+    if skipped:
+        kinds = ["same", "split", "default", "default", "count", "larger", "smaller", "quaternion", "quatflag"]
+    elif k == 1 and n == 1:
+        kinds = kinds + ["default", "default"]
+    kind = rng.choice(kinds)
+    pl, pc, pn = prev_lay
+    if kind == "same":
+        return kind, 0, (k, pl, pc, 0, pn)
+    if kind == "split":
+        ol, oc, on = split(rng, n)
+        return kind, 0, (k, ol, oc, 0, on)
+    if kind == "quatflag":       # use_quaternion = true but no circular component: dim = dim_covariance = n
+        on = rng.randint(0, n - 1) if rng.random() < 0.3 else 0
+        return kind, 0, (k, n - on, 0, 1, on)
+    if kind == "default":
+        return kind, 1, (1, 1, 0, 0, 0)
+    if kind == "count":
+        ko = rng.choice([x for x in range(1, 6) if x != k])
+        ol, oc, on = split(rng, n)
+        return kind, 0, (ko, ol, oc, 0, on)
+    if kind == "larger":
+        no = n + rng.randint(1, 3); ko = k + rng.randint(0, 2)
+        ol, oc, on = split(rng, no)
+        return kind, 0, (ko, ol, oc, 0, on)
+    if kind == "smaller":
+        no = rng.randint(1, max(1, n - 1)); ko = rng.randint(1, k)
+        ol, oc, on = split(rng, no)
+        return kind, 0, (ko, ol, oc, 0, on)
+    oc = rng.randint(1, 2)       # a genuine quaternion object: dim = ol + 4 oc, dim_covariance = ol + 3 oc
+    return "quaternion", 0, (rng.randint(1, 4), rng.randint(0, 3), oc, 1, rng.randint(0, 1))
+
+
+def put_call(c, rng, s, prob, k, n, sp, ss, se, scale_old):
+    """Writes the operands of one predict call (suffix s) into the case; returns its meta."""
+    sf = (lambda x: x) if s is None else (lambda x: "%s_%d" % (x, s))
+    lay = split(rng, n)
+    skipped = bool(sp or ss)
+    oclass, odef, (ok, ol, oc, oq, on) = output_object(rng, k, n, lay, skipped)
+    do, dco = dims(ol, oc, oq, on)
+    w = np.array([rng.random() + 0.1 for _ in range(k)]); w = np.log(w / w.sum())
+    c.mat(sf("F"), prob["F"]).mat(sf("Q"), prob["Q"])
+    if prob["B"] is not None:
+        c.mat(sf("B"), prob["B"]).mat(sf("c"), prob["c"])
+    c.mat(sf("means"), prob["means"]).mat(sf("covs"), np.hstack(prob["covs"])).mat(sf("weights"), w.reshape(-1, 1))
+    c.int(sf("pl"), lay[0]).int(sf("pc"), lay[1]).int(sf("pn"), lay[2])
+    c.int(sf("odef"), odef).int(sf("ok"), ok).int(sf("ol"), ol).int(sf("oc"), oc).int(sf("oq"), oq).int(sf("on"), on)
+    if odef:
+        # what a default-constructed GaussianMixture holds (harness and library are compiled with EIGEN_INITIALIZE_MATRICES_BY_ZERO)
+        c.mat(sf("old_means"), np.zeros((1, 1))).mat(sf("old_covs"), np.zeros((1, 1))).mat(sf("old_weights"), np.ones((1, 1)))
+    else:
+        ow = np.array([rng.random() + 0.1 for _ in range(ok)]); ow = np.log(ow / ow.sum())
+        c.mat_shape(sf("old_means"), do, ok, gen.matrix(rng, do, ok, 7.0) * scale_old)
+        c.mat_shape(sf("old_covs"), dco, dco * ok, gen.matrix(rng, dco, dco * ok, 5.0) * scale_old)
+        c.mat(sf("old_weights"), ow.reshape(-1, 1))
+    c.int(sf("sp"), sp).int(sf("ss"), ss).int(sf("se"), se)
+    return dict(lay=lay, oclass=oclass)
 
 
 def flags(rng, have_exo, always):
@@ -64,37 +243,38 @@ def flags(rng, have_exo, always):
 
 
 def generate(rng, tier):
+    return _generate(rng, *COUNTS[tier])
+
+
+def search_cases(rng):
+    """The widened search (runner.widen_if_needed): all three kinds, other seed."""
+    return _generate(rng, *SEARCH)
+
+
+def _generate(rng, npred, nprop, nseq):
     cases = []
-    npred, nprop = COUNTS[tier]
     for kk in range(npred + nprop):
         kind = "predict" if kk < npred else "propagate"
         n = rng.randint(1, 6); k = rng.randint(1, 4)
-        F, fkind = transition(rng, n)
-        Q, rq = psd_any(rng, n)
         have_exo = rng.random() < 0.5
         sp, ss, se = flags(rng, have_exo, kind == "propagate")
-        meta = {"n": n, "comps": k, "exo": int(have_exo), "fkind": fkind, "rankQ": rq, "sp": sp, "ss": ss, "se": se}
+        L, D = units(rng, n)
+        pr = problem(rng, n, k, have_exo, L, D)
+        intrude = 1 if rng.random() < 0.3 else 0     # callback re-entrancy: a twin prediction runs inside every model callback
+        meta = {"n": n, "comps": k, "exo": int(have_exo), "fkind": pr["fkind"], "rankQ": pr["rq"], "sp": sp, "ss": ss, "se": se,
+                "intrude": intrude, "L": "%.3g" % L, "Dspan": "%.3g" % (D.max() / D.min())}
         c = caseio.Case(kk, kind, meta)
-        c.mat("F", F).mat("Q", Q)
-        if have_exo:
-            c.mat("B", gen.matrix(rng, n, n)).mat("c", gen.matrix(rng, n, 1, 4.0))
         if kind == "predict":
-            means = gen.matrix(rng, n, k, 3.0)
-            covs, rmin = [], n
-            for i in range(k):
-                P, r = psd_any(rng, n)
-                covs.append(P); rmin = min(rmin, r)
-            c.meta["rankPmin"] = rmin
-            w = np.array([rng.random() + 0.1 for _ in range(k)]); w = np.log(w / w.sum())
-            ow = np.array([rng.random() + 0.1 for _ in range(k)]); ow = np.log(ow / ow.sum())
-            c.mat("means", means).mat("covs", np.hstack(covs)).mat("weights", w.reshape(-1, 1))
-            c.mat("old_means", gen.matrix(rng, n, k, 7.0)).mat("old_covs", gen.matrix(rng, n, n * k, 5.0)).mat("old_weights", ow.reshape(-1, 1))
-            c.int("sp", sp)
+            m = put_call(c, rng, None, pr, k, n, sp, ss, se, L * float(D.max()))
+            c.meta.update({"rankPmin": pr["rpmin"], "circ": m["lay"][1], "noise": m["lay"][2], "oclass": m["oclass"]})
         else:
-            c.mat("cur", gen.matrix(rng, n, k, 3.0)).mat("old", gen.matrix(rng, n, k, 7.0))
-        c.int("ss", ss).int("se", se)
+            c.mat("F", pr["F"]).mat("Q", pr["Q"])
+            if have_exo:
+                c.mat("B", pr["B"]).mat("c", pr["c"])
+            c.mat("cur", pr["means"]).mat("old", gen.matrix(rng, n, k, 7.0) * L * float(D.max()))
+            c.int("ss", ss).int("se", se)
         cases.append(c)
-    for _ in range(SEQ_COUNTS[tier]):
+    for _ in range(nseq):
         cases.append(sequence_case(rng, len(cases)))
     return cases
 
@@ -103,198 +283,326 @@ def sequence_case(rng, cid):
     """One KFPrediction object, 2-4 predicts; the live model's F, Q (and B, c) at each call are those of the step."""
     n = rng.randint(1, 5); nsteps = rng.randint(2, 4)
     have_exo = rng.random() < 0.5
-    hows = ["first"] + [rng.choice(HOWS) for _ in range(nsteps - 1)]
-    c = caseio.Case(cid, "sequence", {"n": n, "comps": 0, "exo": int(have_exo), "fkind": "seq", "rankQ": n, "sp": 0, "ss": 0, "se": 0,
-                                      "nsteps": nsteps, "hows": ",".join(hows)})
-    c.int("nsteps", nsteps).word("steps", hows)
-    F = Q = B = cc = None
-    kmax = 0
-    for s_, h in enumerate(hows):
-        if h in ("same", "movector") and F is not None:
-            pass                                   # the live model still holds the previous matrices
+    L, D = units(rng, n)
+    hows, ns, ks, fl, ocl, circ = [], [], [], [], [], []
+    c = caseio.Case(cid, "sequence", {})
+    c.int("nsteps", nsteps)
+    keep = None
+    for s_ in range(nsteps):
+        h = "first" if s_ == 0 else rng.choice(HOWS)
+        if h == "attach" or (h == "moveassign" and rng.random() < 0.5):
+            new_exo = True if h == "attach" else (rng.random() < 0.5)
         else:
-            F, _ = transition(rng, n)
-            Q, _ = psd_any(rng, n)
-            if rng.random() < 0.25 and s_ > 0:     # only one of the two changes
-                if rng.random() < 0.5:
-                    F = c.get("F_%d" % (s_ - 1))
-                else:
-                    Q = c.get("Q_%d" % (s_ - 1))
-            B, cc = gen.matrix(rng, n, n), gen.matrix(rng, n, 1, 4.0)
-        c.mat("F_%d" % s_, F).mat("Q_%d" % s_, Q)
-        if have_exo:
-            c.mat("B_%d" % s_, B).mat("c_%d" % s_, cc)
-        k = rng.randint(1, 4); kmax = max(kmax, k)
-        covs = [psd_any(rng, n)[0] for _ in range(k)]
-        w = np.array([rng.random() + 0.1 for _ in range(k)]); w = np.log(w / w.sum())
-        ow = np.array([rng.random() + 0.1 for _ in range(k)]); ow = np.log(ow / ow.sum())
-        c.mat("means_%d" % s_, gen.matrix(rng, n, k, 3.0)).mat("covs_%d" % s_, np.hstack(covs)).mat("weights_%d" % s_, w.reshape(-1, 1))
-        c.mat("old_means_%d" % s_, gen.matrix(rng, n, k, 7.0)).mat("old_covs_%d" % s_, gen.matrix(rng, n, n * k, 5.0)).mat("old_weights_%d" % s_, ow.reshape(-1, 1))
-    c.mat("F", c.get("F_0")).mat("Q", c.get("Q_0"))       # read by the driver's common prologue
-    c.meta["comps"] = kmax
+            new_exo = have_exo
+        if h == "moveassign" and rng.random() < 0.4:          # the donor's model has another state dimension
+            n = rng.randint(1, 5)
+            L, D = units(rng, n)
+            keep = None
+        if h in ("same", "movector") and keep is not None:
+            pass                                               # the live model still holds the previous matrices
+        elif h == "attach" and keep is not None:               # matrices unchanged, exogenous model new
+            B = D[:, None] * gen.matrix(rng, n, n) / D[None, :]
+            keep = (keep[0], keep[1], B, L * D[:, None] * gen.matrix(rng, n, 1, 4.0), keep[4], keep[5])
+        else:
+            old = keep
+            keep = None
+        have_exo = new_exo
+        k = rng.randint(1, 4)
+        pr = problem(rng, n, k, have_exo, L, D, keep)
+        if keep is None and s_ > 0 and h in ("set", "time", "movector+set") and old is not None and rng.random() < 0.25:
+            # only one of the two matrices changes
+            if rng.random() < 0.5:
+                pr["F"], pr["fkind"] = old[0], old[4]
+            else:
+                pr["Q"], pr["rq"] = old[1], old[5]
+        keep = (pr["F"], pr["Q"], pr["B"], pr["c"], pr["fkind"], pr["rq"])
+        sp, ss, se = flags(rng, have_exo, False) if rng.random() < 0.7 else flags(rng, have_exo, True)
+        m = put_call(c, rng, s_, pr, k, n, sp, ss, se, L * float(D.max()))
+        hows.append(h); ns.append(n); ks.append(k); fl.append("%d%d%d" % (sp, ss, se)); ocl.append(m["oclass"]); circ.append(m["lay"][1])
+    c.word("steps", hows)
+    c.meta.update({"n": ns[0], "comps": max(ks), "exo": int(c.has("B_0")), "fkind": "seq", "rankQ": ns[0], "sp": 0, "ss": 0, "se": 0,
+                   "nsteps": nsteps, "hows": ",".join(hows), "dims": ",".join(map(str, ns)), "flags": ",".join(fl),
+                   "oclasses": ",".join(ocl), "circ": max(circ), "intrude": 1 if rng.random() < 0.3 else 0,
+                   "L": "%.3g" % L, "Dspan": "%.3g" % (D.max() / D.min())})
     return c
 
 
-def _step_view(c, rec, s_):
-    """A step of a sequence seen as a single predict case: (pseudo case accessor, record accessor)."""
-    class V:
-        kind = "predict"
-        meta = {"sp": 0, "ss": 0, "se": 0, "exo": c.meta["exo"], "comps": c.get("means_%d" % s_).shape[1]}
-        def get(self, name):
-            return c.get("%s_%d" % (name, s_))
-        def has(self, name):
-            return c.has("%s_%d" % (name, s_))
-    class R:
-        def get(self, name, default=None):
-            return rec.get("%s_%d" % (name, s_), default) if rec is not None else default
-        def has(self, name):
-            return rec is not None and rec.has("%s_%d" % (name, s_))
-    return V(), R()
+# ---------------------------------------------------------------------------------------------- views
+class _View:
+    """One predict call: operand access (suffix-aware) + flags."""
+    def __init__(self, c, s):
+        self.c, self.s = c, s
+        self.sp, self.ss, self.se = (int(self.get(x)) for x in ("sp", "ss", "se"))
+        self.exo = self.has("B")
+        self.n, self.k = self.get("means").shape
+
+    def name(self, x):
+        return x if self.s is None else "%s_%d" % (x, self.s)
+
+    def get(self, x):
+        return self.c.get(self.name(x))
+
+    def has(self, x):
+        return self.c.has(self.name(x))
+
+
+class _Rec:
+    def __init__(self, rec, s):
+        self.rec, self.s = rec, s
+
+    def get(self, x, default=None):
+        return self.rec.get(x if self.s is None else "%s_%d" % (x, self.s), default)
+
+
+def _views(c):
+    if c.kind == "sequence":
+        hows = c.meta["hows"].split(",")
+        return [(_View(c, s), s, "step %d (%s): " % (s, hows[s]), ":step=%d:after=%s" % (s, hows[s])) for s in range(int(c.meta["nsteps"]))]
+    return [(_View(c, None), None, "", "")]
 
 
 def nontrivial(c):
     m = c.meta
     if c.kind == "sequence":
-        return ("sequence", int(m["n"]), int(m["exo"]), m["hows"])
+        return ("sequence", m["dims"], int(m["exo"]), m["hows"], m["flags"], m["oclasses"])
     n, k = int(m["n"]), int(m["comps"])
     fl = (int(m["sp"]), int(m["ss"]), int(m["se"]))
     rp = int(m.get("rankPmin", n))
-    if k >= 2 or int(m["exo"]) or int(m["rankQ"]) < n or rp < n or any(fl):
-        return (c.kind, n, k, int(m["exo"]), m["fkind"], int(m["rankQ"]), rp, fl)
+    circ, noise, ocl = int(m.get("circ", 0)) > 0, int(m.get("noise", 0)) > 0, m.get("oclass", "same")
+    if k >= 2 or int(m["exo"]) or int(m["rankQ"]) < n or rp < n or any(fl) or circ or noise or ocl != "same":
+        return (c.kind, n, k, int(m["exo"]), m["fkind"], int(m["rankQ"]), rp, fl, circ, noise, ocl)
     return None
 
 
-def _mag(c):
-    """magnitude of the quantities computed (for the rounding tolerance)"""
-    F = c.get("F"); n = F.shape[0]
-    f = max(1.0, float(np.max(np.abs(F))) if F.size else 1.0)
-    b = max(1.0, float(np.max(np.abs(c.get("B"))))) if c.has("B") else 1.0
-    if c.kind == "predict":
-        x = max(1.0, float(np.max(np.abs(c.get("means")))))
-        p = max(1.0, float(np.max(np.abs(c.get("covs")))))
-        return n * (f + b) * x + 10.0, n * n * f * f * p + float(np.max(np.abs(c.get("Q")))) + 1.0
-    x = max(1.0, float(np.max(np.abs(c.get("cur")))))
-    return n * (f + b) * x + 10.0, 1.0
+# ---------------------------------------------------------------------------------------------- tolerances
+def _within(a, b, tol):
+    """|a - b| <= tol componentwise (same shape, finite)."""
+    if a is None or b is None:
+        return False
+    a, b = np.asarray(a, dtype=float), np.asarray(b, dtype=float)
+    if a.shape != b.shape or a.shape != np.shape(tol):
+        return False
+    with np.errstate(invalid="ignore"):
+        return bool(np.all(np.abs(a - b) <= tol))
+
+
+def _excess(a, b, tol):
+    """max over the entries of |a - b| / tol (for the message)."""
+    if a is None or b is None or np.shape(a) != np.shape(b) or np.shape(a) != np.shape(tol):
+        return float("nan")
+    with np.errstate(invalid="ignore", divide="ignore"):
+        return float(np.nanmax(np.abs(np.asarray(a) - np.asarray(b)) / tol))
+
+
+def mean_bound(F, X, B, cc):
+    """Componentwise forward-error bound of F X (+ B X + c 1^T) evaluated in floating point by ANY summation order,
+    two such evaluations compared: |fl - exact| <= (n+3) u (|F||X| + |B||X| + |c|) each.  The bound scales with the
+    units of the case (x -> L D x multiplies row i by L D_i), so no conditioning factor is needed."""
+    n = F.shape[0]
+    T = np.abs(F) @ np.abs(X)
+    if B is not None:
+        T = T + np.abs(B) @ np.abs(X) + np.abs(cc) @ np.ones((1, X.shape[1]))
+    return 8 * (n + 3) * U * T + TINY
+
+
+def cov_bound(F, P, Q):
+    """Componentwise bound for F P F^T + Q evaluated in floating point: a direct evaluation errs by at most
+    (2n+3) u (|F||P||F|^T + |Q|); since |P_ij| <= p_i p_j and |Q_ij| <= q_i q_j for PSD matrices (p, q the square roots of
+    the diagonals) that is <= (2n+3) u (a a^T + q q^T) with a = |F| p, and this weaker form also covers evaluations through
+    a factor of P (P = L L^T: |F||L||L|^T|F|^T <= a a^T by Cauchy-Schwarz), i.e. every backward-stable way of computing
+    the same matrix.  Entry (i, j) scales with L^2 D_i D_j under a change of units."""
+    n = F.shape[0]
+    a = np.abs(F) @ np.sqrt(np.maximum(np.diag(P), 0.0)); q = np.sqrt(np.maximum(np.diag(Q), 0.0))
+    return 8 * (2 * n + 3) * U * (np.outer(a, a) + np.outer(q, q)) + TINY
+
+
+def psd_margin(F, P, Q, Pi):
+    """lambda_min of the output covariance after the congruence d^-1 . d^-1 with d_i^2 = (|F| p)_i^2 + q_i^2
+    (p, q the square roots of the diagonals of P, Q), and the tolerance for it.  The inputs are PSD up to
+    (n+2) u p p^T componentwise (floating Gram products) and the evaluation adds (2n+3) u (|F||P||F|^T + |Q|), both
+    <= const * u * (a a^T + q q^T) with a = |F| p; after the congruence every entry of that matrix is <= 1, hence its
+    norm <= n: lambda_min >= -(3n+7) n u for a correct result, in any units."""
+    n = F.shape[0]
+    p = np.sqrt(np.maximum(np.diag(P), 0.0)); q = np.sqrt(np.maximum(np.diag(Q), 0.0))
+    d = np.sqrt((np.abs(F) @ p) ** 2 + q ** 2)
+    d = np.where(d > 0, d, 1.0)
+    S = sym(Pi) / d[:, None] / d[None, :]
+    return float(np.linalg.eigvalsh(S).min()), 8 * (3 * n + 7) * n * U
+
+
+# ---------------------------------------------------------------------------------------------- correspondence
+LAYOUT_FIELDS = ["components", "dim", "dim_linear", "dim_circular", "dim_covariance", "dim_noise", "quat"]
 
 
 def compare(c, impl, model):
-    if c.kind == "sequence":
-        d = []
-        hows = c.meta["hows"].split(",")
-        for s_ in range(int(c.meta["nsteps"])):
-            v, ri = _step_view(c, impl, s_)
-            _, rm = _step_view(c, model, s_)
-            d += ["step %d (%s): %s" % (s_, hows[s_], x) for x in _compare_predict(v, ri, rm, check_exo_calls=False)]
-        return d[:8]
-    return _compare_predict(c, impl, model)
-
-
-def _compare_predict(c, impl, model, check_exo_calls=True):
     d = []
-    mm, mc = _mag(c)
     if c.kind == "propagate":
-        if not caseio.close(impl.get("prop"), model.get("prop"), 1e-12 * mm, 0):
-            d.append("prop: max|impl-model|=%.3g" % caseio.maxdiff(impl.get("prop"), model.get("prop")))
-    else:
-        k = int(c.meta["comps"])
-        if impl.get("components") != model.get("components"):
-            d.append("components: impl=%s model=%s" % (impl.get("components"), model.get("components")))
-        if not caseio.close(impl.get("means"), model.get("means"), 1e-12 * mm, 0):
-            d.append("means: max|impl-model|=%.3g (tol %.3g)" % (caseio.maxdiff(impl.get("means"), model.get("means")), 1e-12 * mm))
-        for i in range(k):
-            a, b = impl.get("cov%d" % i), model.get("cov%d" % i)
-            if a is None or b is None or not caseio.close(a, b, 1e-12 * mc, 0):
-                d.append("cov%d: max|impl-model|=%.3g (tol %.3g)" % (i, caseio.maxdiff(a, b) if a is not None and b is not None else float("nan"), 1e-12 * mc))
-        # the weights are copied or kept, never computed: exact
-        if not caseio.close(impl.get("weights"), model.get("weights"), 0, 0):
-            d.append("weights: impl=%s model=%s" % (impl.get("weights").ravel(), model.get("weights").ravel()))
-    if not check_exo_calls:
-        return d
-    # the exogenous model is consulted once, on all columns, exactly when it is attached and neither it nor the step is skipped early
-    sp, ss, se = int(c.meta["sp"]), int(c.meta["ss"]), int(c.meta["se"])
-    exp = 0
-    if int(c.meta["exo"]) and not se:
-        exp = 1 if c.kind == "propagate" else (0 if (sp or ss) else 1)
+        return _compare_propagate(c, impl, model)
+    for v, s, pre, _ in _views(c):
+        d += [pre + x for x in _compare_predict(v, _Rec(impl, s), _Rec(model, s), check_exo_calls=(c.kind == "predict"))]
+    return d[:8]
+
+
+def _prop_expect(F, exo, ss, se, cur, old, B, cc):
+    """(expected value, componentwise tolerance) of LinearStateModel::propagate."""
+    one = np.ones((1, cur.shape[1]))
+    if exo:
+        if ss and se:
+            return cur, np.zeros_like(cur)
+        if not ss and not se:
+            return F @ cur + (B @ cur + cc @ one), mean_bound(F, cur, B, cc)
+        if not ss:
+            return F @ cur, mean_bound(F, cur, None, None)
+        return B @ cur + cc @ one, mean_bound(np.zeros_like(F), cur, B, cc)
+    return (F @ cur, mean_bound(F, cur, None, None)) if not ss else (old, np.zeros_like(old))
+
+
+def _compare_propagate(c, impl, model):
+    d = []
+    F, cur, old = c.get("F"), c.get("cur"), c.get("old")
+    exo = c.has("B")
+    ss, se = int(c.meta["ss"]), int(c.meta["se"])
+    _, tol = _prop_expect(F, exo, ss, se, cur, old, c.get("B") if exo else None, c.get("c") if exo else None)
+    if not _within(impl.get("prop"), model.get("prop"), tol):
+        d.append("prop: |impl-model| exceeds the componentwise bound %.3g times" % _excess(impl.get("prop"), model.get("prop"), tol))
+    exp = 1 if (exo and not se) else 0
     if impl.get("exo_calls") != exp:
         d.append("exo_calls: impl=%s model=%d" % (impl.get("exo_calls"), exp))
     return d
 
 
+def _compare_predict(v, impl, model, check_exo_calls=True):
+    d = []
+    skipped = bool(v.sp or v.ss)
+    # descriptors of the returned object.  components / dim / dim_covariance (and everything when the call is skipped)
+    # must be the model's; for the linear/circular/noise split of a call that is not skipped the model says "those of
+    # the output object" - an implementation that re-describes the output like the input belief is equally good
+    prev_lay = {"components": v.k, "dim": v.n, "dim_linear": int(v.get("pl")), "dim_circular": int(v.get("pc")),
+                "dim_covariance": v.n, "dim_noise": int(v.get("pn")), "quat": 0}
+    for f in LAYOUT_FIELDS:
+        a, b = impl.get(f), model.get(f)
+        if a != b and not (not skipped and f in ("dim_linear", "dim_circular", "dim_noise", "quat") and a == prev_lay[f]):
+            d.append("%s: impl=%s model=%s" % (f, a, b))
+    if impl.get("storage_ok") != 1:
+        d.append("storage of the returned object disagrees with its descriptors")
+    if model.get("ncovs") != model.get("components"):
+        d.append("model: %s covariances for %s components" % (model.get("ncovs"), model.get("components")))
+    if d:
+        return d
+    F, Q, X = v.get("F"), v.get("Q"), v.get("means")
+    covs = v.get("covs")
+    active = v.exo and not v.se
+    tm = np.zeros_like(X) if skipped else mean_bound(F, X, v.get("B") if active else None, v.get("c") if active else None)
+    if not _within(impl.get("means"), model.get("means"), tm):
+        d.append("means: |impl-model| exceeds the componentwise bound %.3g times" % _excess(impl.get("means"), model.get("means"), tm))
+    for i in range(v.k):
+        P = covs[:, i * v.n:(i + 1) * v.n]
+        tc = np.zeros_like(P) if skipped else cov_bound(F, P, Q)
+        a, b = impl.get("cov%d" % i), model.get("cov%d" % i)
+        if not _within(a, b, tc):
+            d.append("cov%d: |impl-model| exceeds the componentwise bound %.3g times" % (i, _excess(a, b, tc)))
+    # the weights are copied or kept, never computed: exact
+    if not caseio.close(impl.get("weights"), model.get("weights"), 0, 0):
+        d.append("weights: impl=%s model=%s" % (np.ravel(impl.get("weights")), np.ravel(model.get("weights"))))
+    if not check_exo_calls:
+        return d
+    # the exogenous model is consulted once, on all columns, exactly when it is attached and neither it nor the step is skipped early
+    exp = 1 if (v.exo and not v.se and not skipped) else 0
+    if impl.get("exo_calls") != exp:
+        d.append("exo_calls: impl=%s model=%d" % (impl.get("exo_calls"), exp))
+    return d
+
+
+# ---------------------------------------------------------------------------------------------- the property on the implementation
 def oracle(c, impl, model):
-    if c.kind == "sequence":
-        out = []
-        hows = c.meta["hows"].split(",")
-        for s_ in range(int(c.meta["nsteps"])):
-            v, ri = _step_view(c, impl, s_)
-            for sig, det in _oracle_predict(v, ri, None):
-                # which call of the object's life, and what happened to the object / its model just before it
-                out.append(("%s:step=%d:after=%s" % (sig, s_, hows[s_]), "sequence %s, call %d: %s" % (c.meta["hows"], s_, det)))
-        return out
-    return _oracle_predict(c, impl, model)
+    re = ":callback-reentrancy" if int(c.meta.get("intrude", 0)) else ""
+    if c.kind == "propagate":
+        return [(sig + re, det) for sig, det in _oracle_propagate(c, impl)]
+    out = []
+    for v, s, pre, tag in _views(c):
+        for sig, det in _oracle_predict(v, _Rec(impl, s), _Rec(model, s) if (model is not None and c.kind == "predict") else None):
+            out.append((sig + tag + re, ("sequence %s, " % c.meta["hows"] if c.kind == "sequence" else "") + pre + det))
+    return out
+
+
+def _oracle_propagate(c, impl):
+    v = []
+    F, cur, old = c.get("F"), c.get("cur"), c.get("old")
+    exo = c.has("B")
+    ss, se = int(c.meta["ss"]), int(c.meta["se"])
+    if impl.get("input_unchanged") != 1:
+        v.append(("C02:input-modified:propagate", "cur_states was modified"))
+    exp, tol = _prop_expect(F, exo, ss, se, cur, old, c.get("B") if exo else None, c.get("c") if exo else None)
+    if not _within(impl.get("prop"), exp, tol):
+        v.append(("C02:propagate-branch:exo=%d:ss=%d:se=%d" % (exo, ss, se),
+                  "the propagated states differ from the branch's formula by %.3g times the componentwise rounding bound" % _excess(impl.get("prop"), exp, tol)))
+    return v
 
 
 def _oracle_predict(c, impl, model):
     """The property clauses evaluated on the implementation's output (numpy as the independent formula,
     the extracted spec functions as the second one)."""
     v = []
-    F = c.get("F"); n = F.shape[0]
-    sp, ss, se = int(c.meta["sp"]), int(c.meta["ss"]), int(c.meta["se"])
-    exo = bool(int(c.meta["exo"]))
+    F, Q = c.get("F"), c.get("Q")
+    n, k = c.n, c.k
+    sp, ss, se, exo = c.sp, c.ss, c.se, c.exo
     fl = "flags=%d%d%d" % (sp, ss, se)
-    mm, mc = _mag(c)
-
-    def u(X):
-        return c.get("B") @ X + c.get("c") @ np.ones((1, X.shape[1])) if exo else np.zeros_like(X)
-
-    if c.kind == "propagate":
-        cur, old, out = c.get("cur"), c.get("old"), impl.get("prop")
-        if impl.get("input_unchanged") != 1:
-            v.append(("C02:input-modified:propagate", "cur_states was modified"))
-        if exo:
-            exp = {(0, 0): F @ cur + u(cur), (0, 1): F @ cur, (1, 0): u(cur), (1, 1): cur}[(ss, se)]
-        else:
-            exp = F @ cur if not ss else old
-        if not caseio.close(out, exp, 1e-11 * mm, 0):
-            v.append(("C02:propagate-branch:exo=%d:ss=%d:se=%d" % (exo, ss, se), "max diff %.3g" % caseio.maxdiff(out, exp)))
-        return v
-
-    Q = c.get("Q"); k = int(c.meta["comps"])
+    pl, pc, pn = int(c.get("pl")), int(c.get("pc")), int(c.get("pn"))
+    lay = "circular=%d:noise=%d" % (int(pc > 0), int(pn > 0))
     means, covs, w = c.get("means"), c.get("covs"), c.get("weights")
     if impl.get("prev_unchanged") != 1:
         v.append(("C02:input-modified", "the belief passed in was modified (%s)" % fl))
-    if impl.get("components") != k or impl.get("dim") != n:
-        v.append(("C02:component-count", "output reports %s components of dim %s for %d of dim %d" % (impl.get("components"), impl.get("dim"), k, n)))
+    # --- layout of the predicted mixture: one mean of the belief's dimension and one covariance of the belief's
+    # covariance size per component of the belief, descriptors consistent with one another and with the storage
+    got = {f: impl.get(f) for f in LAYOUT_FIELDS}
+    circ_sz, cov_sz = (4, 3) if got["quat"] else (1, 1)
+    consistent = (None not in got.values()
+                  and got["dim"] == got["dim_linear"] + got["dim_circular"] * circ_sz + got["dim_noise"]
+                  and got["dim_covariance"] == got["dim_linear"] + got["dim_circular"] * cov_sz + got["dim_noise"]
+                  and impl.get("storage_ok") == 1)
+    if got["components"] != k or got["dim"] != n or got["dim_covariance"] != n or not consistent:
+        v.append(("C02:layout:%s:%s" % (lay, fl),
+                  "belief of %d components, dim %d = %d linear + %d circular + %d noise; the predicted mixture reports components=%s dim=%s "
+                  "dim_linear=%s dim_circular=%s dim_covariance=%s dim_noise=%s quat=%s, storage consistent=%s"
+                  % (k, n, pl, pc, pn, got["components"], got["dim"], got["dim_linear"], got["dim_circular"], got["dim_covariance"],
+                     got["dim_noise"], got["quat"], impl.get("storage_ok"))))
         return v
     if sp or ss:
-        ok = caseio.close(impl.get("means"), means, 0, 0) and caseio.close(impl.get("weights"), w, 0, 0) and \
+        same_lay = (got["dim_linear"], got["dim_circular"], got["dim_noise"], got["quat"]) == (pl, pc, pn, 0)
+        ok = same_lay and caseio.close(impl.get("means"), means, 0, 0) and caseio.close(impl.get("weights"), w, 0, 0) and \
             all(caseio.close(impl.get("cov%d" % i), covs[:, i * n:(i + 1) * n], 0, 0) for i in range(k))
         if not ok:
-            v.append(("C02:skipped-not-identity:%s" % fl, "a skipped prediction did not return its input"))
+            v.append(("C02:skipped-not-identity:%s" % fl, "a skipped prediction did not return its input (layout %s)" % ("kept" if same_lay else "changed")))
         return v
-    U = u(means) if not se else np.zeros_like(means)
-    tag = "exo" if (exo and not se) else ("exo-skipped" if exo else "noexo")
+    active = exo and not se
+    B, cc = (c.get("B"), c.get("c")) if active else (None, None)
+    Um = B @ means + cc @ np.ones((1, k)) if active else np.zeros_like(means)
+    tag = "exo" if active else ("exo-skipped" if exo else "noexo")
+    tm = mean_bound(F, means, B, cc)
+    im = impl.get("means")
     for i in range(k):
         P = covs[:, i * n:(i + 1) * n]
-        mi, Pi = impl.get("means")[:, i:i + 1], impl.get("cov%d" % i)
-        em = F @ means[:, i:i + 1] + U[:, i:i + 1]
+        mi, Pi = im[:, i:i + 1], impl.get("cov%d" % i)
+        em = F @ means[:, i:i + 1] + Um[:, i:i + 1]
         eP = F @ P @ F.T + Q
-        if not caseio.close(mi, em, 1e-11 * mm, 0):
-            v.append(("C02:mean-not-Fm+u:%s" % tag, "component %d: max diff %.3g" % (i, caseio.maxdiff(mi, em))))
-        if not caseio.close(Pi, eP, 1e-11 * mc, 0):
-            v.append(("C02:cov-not-FPFt+Q", "component %d: max diff %.3g (tol %.3g)" % (i, caseio.maxdiff(Pi, eP), 1e-11 * mc)))
+        tc = cov_bound(F, P, Q)
+        if not _within(mi, em, tm[:, i:i + 1]):
+            v.append(("C02:mean-not-Fm+u:%s" % tag, "component %d: off by %.3g times the componentwise rounding bound" % (i, _excess(mi, em, tm[:, i:i + 1]))))
+        if not _within(Pi, eP, tc):
+            v.append(("C02:cov-not-FPFt+Q", "component %d: off by %.3g times the componentwise rounding bound" % (i, _excess(Pi, eP, tc))))
         if model is not None and se == 0:
             sm, sP = model.get("spec_mean%d" % i), model.get("spec_cov%d" % i)
-            if sm is not None and not caseio.close(mi, sm, 1e-11 * mm, 0):
-                v.append(("C02:mean-not-Fm+u:%s" % tag, "component %d vs extracted spec: max diff %.3g" % (i, caseio.maxdiff(mi, sm))))
-            if sP is not None and not caseio.close(Pi, sP, 1e-11 * mc, 0):
-                v.append(("C02:cov-not-FPFt+Q", "component %d vs extracted spec: max diff %.3g" % (i, caseio.maxdiff(Pi, sP))))
-        if not np.all(np.isfinite(Pi)):
+            if sm is not None and not _within(mi, sm, tm[:, i:i + 1]):
+                v.append(("C02:mean-not-Fm+u:%s" % tag, "component %d vs extracted spec: off by %.3g times the bound" % (i, _excess(mi, sm, tm[:, i:i + 1]))))
+            if sP is not None and not _within(Pi, sP, tc):
+                v.append(("C02:cov-not-FPFt+Q", "component %d vs extracted spec: off by %.3g times the bound" % (i, _excess(Pi, sP, tc))))
+        if Pi is None or Pi.shape != (n, n) or not np.all(np.isfinite(Pi)):
             v.append(("C02:cov-not-finite", "component %d" % i)); continue
-        if not caseio.close(Pi, Pi.T, 1e-11 * mc, 0):
-            v.append(("C02:cov-not-symmetric", "component %d: max asymmetry %.3g" % (i, caseio.maxdiff(Pi, Pi.T))))
-        lam = np.linalg.eigvalsh((Pi + Pi.T) / 2).min()
-        if lam < -1e-10 * mc:
-            v.append(("C02:cov-not-psd", "component %d: lambda_min %.3g" % (i, lam)))
+        if not _within(Pi, Pi.T, 2 * tc):
+            v.append(("C02:cov-not-symmetric", "component %d: asymmetry %.3g times the bound" % (i, _excess(Pi, Pi.T, 2 * tc))))
+        lam, ptol = psd_margin(F, P, Q, Pi)
+        if lam < -ptol:
+            v.append(("C02:cov-not-psd", "component %d: scaled lambda_min %.3g < -%.3g" % (i, lam, ptol)))
     if not caseio.close(impl.get("weights"), c.get("old_weights"), 0, 0):
         v.append(("C02:weights-touched", "the weights of the output object were written by the prediction step"))
     return v
@@ -306,18 +614,27 @@ def histogram(cases):
         for c in cases:
             d[str(f(c))] = d.get(str(f(c)), 0) + 1
         return d
+    import math
     return {"kind": count(lambda c: c.kind), "n": count(lambda c: c.meta["n"]), "comps": count(lambda c: c.meta["comps"]),
             "exo": count(lambda c: c.meta["exo"]), "F_kind": count(lambda c: c.meta["fkind"]),
             "rankQ_deficit": count(lambda c: int(c.meta["n"]) - int(c.meta["rankQ"])),
-            "flags(sp,ss,se)": count(lambda c: "%s%s%s" % (c.meta["sp"], c.meta["ss"], c.meta["se"]))}
+            "flags(sp,ss,se)": count(lambda c: "%s%s%s" % (c.meta["sp"], c.meta["ss"], c.meta["se"])),
+            "circular_rows": count(lambda c: c.meta.get("circ", 0)),
+            "output_object": count(lambda c: c.meta.get("oclass", "sequence" if c.kind == "sequence" else "-")),
+            "unit_L_decade": count(lambda c: int(math.floor(math.log10(float(c.meta.get("L", 1)))))),
+            "unit_D_span_decade": count(lambda c: int(math.floor(math.log10(float(c.meta.get("Dspan", 1)))))),
+            "callback_reentrancy": count(lambda c: c.meta.get("intrude", 0))}
 
 
-LEVEL_TEXT = ("Proof: the model of GaussianPrediction::predict / KFPrediction::predictStep / LinearStateModel::propagate over an LTI state model "
+LEVEL_TEXT = ("Proof: the model of GaussianPrediction::predict / KFPrediction::predictStep / LinearStateModel::propagate over a linear state model "
               "is proved, for every real field, dimension, number of components, arbitrary square F, arbitrary exogenous function, to return "
               "mean F m_i + u_i and covariance F P_i F^T + Q per component (symmetric / PSD whenever P_i and Q are, singular ones included), "
               "component-wise and without interaction, equal to the zero-exogenous step when no exogenous model is attached, leaving the output "
-              "object's weights untouched, and to be the identity when skipped. The model is tied to the code by running the extracted model and "
+              "object's weights and descriptors untouched (so that on an output object of the belief's shape the result reports the belief's "
+              "component count and sizes, consistently with its storage), to be the identity - descriptors included, whatever the output object - "
+              "when skipped, and to answer every call of a sequence on one object with the matrices of that call. Every extracted entry point is "
+              "proved equal to the theorem model over any real field. The model is tied to the code by running the extracted model and "
               "the library on the same generated cases.")
-LEVEL_NOTE = ("Trusted: Coq kernel, MathComp, extraction + float driver, list instance of the matrix interface, harness and tolerances; rounding is not "
-              "modelled; the tie to the code is sampled (320 quick / 20000 thorough cases). 'Input belief not modified' is checked on the implementation only "
-              "(it is vacuous in a functional model).")
+LEVEL_NOTE = ("Trusted: Coq kernel, MathComp, extraction + float driver, harness and tolerances; rounding is not "
+              "modelled; the tie to the code is sampled (12000 quick / 24000 thorough cases). 'Input belief not modified' is checked on the implementation only "
+              "(it is vacuous in a functional model). Output objects of another shape are only given to skipped calls (assumption 1).")
